@@ -52,6 +52,7 @@ let () =
       let gc_pending = ref false and dropall_gc = ref false in
       let zok = ref false in
       let ztaut : Model.ref list ref = ref [] in
+      let since : string list ref = ref [] and prev_ps : psnap option ref = ref None in
       let order_req : int list option ref = ref None in
       let prev_v2l : int array ref = ref [||] in
       let last_gc = ref (-1) in
@@ -517,6 +518,16 @@ let () =
           Buffer.add_string digest
             (Printf.sprintf "%d:o%s;" step (String.concat "," (List.map string_of_int (Array.to_list ps.v2l))));
         last_gc := ps.gc;
+        (* C09: a snapshot, add_vars(k), a snapshot: replay add_vars on the extracted model *)
+        (match !since, !prev_ps with
+         | [ vk ], Some pp when kname = "zbdd" && !zok && List.mem "C09" !props && starts_with vk "VARS " ->
+           check "C09";
+           stat "c09_addvars_replayed" 1;
+           (match Zfam.add_vars_check pp ps (int_of_string (String.sub vk 5 (String.length vk - 5))) with
+            | Some m -> fail step "C09" "prop" m
+            | None -> ())
+         | _ -> ());
+        since := []; prev_ps := Some ps;
         resolve_pending step ps
       in
 
@@ -539,12 +550,13 @@ let () =
             else (
               (* "no dead node after gc" can only be asserted if the snapshot directly follows the gc *)
               (match toks with [ "SNAP" ] | [ "GC" ] -> () | _ -> gc_pending := false; dropall_gc := !dropall_gc && false);
+              (match toks with [ "SNAP" ] | "VARS" :: _ -> () | _ -> since := "other" :: !since);
               match toks with
               | [ "SNAP" ] -> (try process_snapshot i res with Failure m -> fail i "C03" "corr" ("driver: " ^ m))
               (* C07: block markers, the event trace (replayed by ocaml/c07_main.ml) and a collection under
                  the shared lock inside a parallel block carry no obligations here *)
               | ("PAR" | "ENDPAR" | "EV" | "EVSTAT" | "PGC") :: _ -> ()
-              | "VARS" :: k :: _ -> nvars := !nvars + int_of_string k
+              | "VARS" :: k :: _ -> nvars := !nvars + int_of_string k; since := ("VARS " ^ k) :: !since
               | [ "DROP"; a ] | [ "DROPT"; a ] -> invalidate (slot_of a)
               | [ "DROPALL" ] -> Hashtbl.reset tts; Hashtbl.reset fams; dropall_gc := true
               | [ "GC" ] -> gc_pending := true
